@@ -21,7 +21,15 @@ git apply -R patch.diff
 WITHOUT=$(cargo test -p $CRATE --offline --test seeded_demo 2>&1 | grep -E "^test result" | tail -1)
 git apply patch.diff
 echo "[$ID] suite with change: $SUITE"; echo "[$ID] demo with change: $WITH"; echo "[$ID] demo without: $WITHOUT"
-cd $REPO && git apply $OUT/patch.diff || { echo "patch does not apply to $REPO"; exit 2; }
+cd $REPO
+if ! git apply $OUT/patch.diff 2>/dev/null; then
+  # the tree has moved on since the change was made (hook commits): carry the change over with a 3-way merge
+  git apply -3 $OUT/patch.diff || { echo "[$ID] patch does not apply to $REPO, not even 3-way"; git checkout -- . ; git reset -q; exit 2; }
+  git reset -q
+  cp $OUT/patch.diff $OUT/patch.orig.diff
+  git diff > $OUT/patch.diff
+  echo "[$ID] patch carried over to $(git rev-parse --short HEAD) by 3-way merge (original kept as patch.orig.diff)"
+fi
 RES=""
 for P in "$@"; do
   cd $HERE && ./check $P > $OUT/check_$P.log 2>&1; RC=$?
